@@ -107,8 +107,13 @@ def atA (attrs name v : Str) : Str :=
 /-- the line `set` prints for a scalar; xtrace of an assignment -/
 def setLine (name v : Str) : Str := name ++ ['='] ++ traceArg v
 
-/-- `export -p`: the value quoted as `declare -p` does (export.rs) -/
-def exportP (name v : Str) : Str := "declare -x ".toList ++ name ++ ['='] ++ declValue v
+/-- `export -p`: the same line as `declare -p` — all attribute flags, the value quoted alike (export.rs) -/
+def exportP (attrs name v : Str) : Str := declareP attrs name v
+
+/-- the flag string of a `declare -<flags> …` line -/
+def declFlags : Str → Option Str
+  | 'd' :: 'e' :: 'c' :: 'l' :: 'a' :: 'r' :: 'e' :: ' ' :: '-' :: r => some (r.takeWhile (· != ' '))
+  | _ => none
 
 /-- `single_quoted` of alias.rs: one pair of quotes, every `'` inside written `'\''` -/
 def sqBash (v : Str) : Str :=
